@@ -4,8 +4,8 @@ from hypothesis import strategies as st
 from pbt import sites
 from pbt.worker import outcome
 
-USE_KINDS = ["call_stmt", "call_init", "call_infer", "call_nested", "method", "ctor", "init", "return", "return_branch",
-             "return_explicit"]
+USE_KINDS = ["call_stmt", "call_init", "call_infer", "call_nested", "method", "ctor", "init", "init_shadow", "return",
+             "return_branch", "return_explicit"]
 MUTATIONS = ["none", "none", "too_many", "too_few", "bad_arg", "bad_result", "bad_value"]
 
 
@@ -133,6 +133,35 @@ def _case(draw):
         stmts = ["def res: %s := %s" % (t, sites.value(draw, x, t))]
         if draw(st.booleans()) and applied is None and t in sites.PRIMS:
             stmts.append("res := %s" % sites.value(draw, draw(st.sampled_from(sites.conforming_types(t))), t))
+    elif kind == "init_shadow":
+        # an annotated definition that re-defines a visible name and mentions the old variable in its initialiser
+        s0 = draw(st.sampled_from(["Int", "Float", "Str", "Bool", "A", "B"]))
+        t = draw(st.sampled_from(sites.TYPES))
+        form = draw(st.sampled_from(["bare", "call", "call", "method", "ctor_field"]))
+        if form == "bare":
+            r, init = s0, "res"
+        elif form == "call":
+            r = draw(st.sampled_from(["Int", "Float", "Str", "Bool", "A", "B"]))
+            defs.append("def conv(w: %s) -> %s => %s" % (s0, r, sites.VALUES[r][0]))
+            init = "conv(res)"
+        elif form == "method":
+            r = draw(st.sampled_from(["Int", "Float", "Str", "Bool", "A", "B"]))
+            defs += ["class Cv(def cv: Int)", "    def conv(fin self, w: %s) -> %s => %s" % (s0, r, sites.VALUES[r][0]),
+                     "def cobj := Cv(1)"]
+            init = "cobj.conv(res)"
+        else:
+            r = "Int"
+            defs += ["class Cw(def cw: %s)" % s0, "    def size(fin self) -> Int => 1"]
+            init = "Cw(res).size()"
+        conforms = sites.subtype(r, t)
+        if not conforms and r not in sites.DEFINITE_MISMATCH[t]:
+            t = r  # not a definite mismatch (e.g. Int for Float parameter rules): keep to the clear cases
+            conforms = True
+        if not conforms:
+            applied = "bad_value_in_shadowing_definition"
+        stmts = ["def res: %s := %s" % (s0, sites.VALUES[s0][0]), "def res: %s := %s" % (t, init)]
+        if conforms and t in sites.PRIMS and draw(st.booleans()):
+            stmts.append("def keep: %s := res" % t)
     else:
         # return sites live in function / method bodies; the position wraps the *call*
         rts = ["Int", "Float", "Str", "Bool", "A", "Any"]
